@@ -223,3 +223,77 @@ Theorem C01_flow_get_protection_gke_from_cache : forall c rnd_cek rnd_iv rnd_kek
   = (let* (e, _) := protection_gke_from_cache c cache rkid target_sd time_ns in Ok (vopt_env e)).
 Proof. exact flow_get_protection_gke_from_cache. Qed.
 Print Assumptions C01_flow_get_protection_gke_from_cache.
+
+(* ---- the four PUBLIC functions, sync and ASYNC (gen/F_cache.v), run offline in the concrete world Flow/World_cache.v (both network
+   callees raise NeedNetwork): their regenerated bodies compute protect_offline / unprotect_offline - value and cache afterwards -
+   so the theorems above are about the source, for the async functions as for the sync ones; and the bodies round-trip.
+   (Imports here: Flow/World_cache.v and Flow/World_e2e.v share constructor names; from here on they are World_cache's.) ---- *)
+From V Require Import Prelude.PyAstMut gen.F_cache Flow.World_cache Proofs.Flow_cache_public Proofs.Flow_cache_c01.
+Theorem C01_flow_unprotect_offline : forall c r1 r2 r3 ns fuel data server u p a co,
+  value_and_param 5 (run_mut (World_cache.MW c r1 r2 r3 ns no_dns no_dc) fuel k_flow_ncrypt_unprotect_secret
+                       [VB data; World_cache.vstr_opt server; u; p; a; World_cache.vcache_opt co])
+  = lift2 (unprotect_offline c (cache_or_new co) data).
+Proof. exact flow_unprotect_offline. Qed.
+Print Assumptions C01_flow_unprotect_offline.
+Theorem C01_flow_async_unprotect_offline : forall c r1 r2 r3 ns fuel data server u p a co,
+  value_and_param 5 (run_mut (World_cache.MW c r1 r2 r3 ns no_dns no_dc) fuel k_flow_async_ncrypt_unprotect_secret
+                       [VB data; World_cache.vstr_opt server; u; p; a; World_cache.vcache_opt co])
+  = lift2 (unprotect_offline c (cache_or_new co) data).
+Proof. exact flow_async_unprotect_offline. Qed.
+Print Assumptions C01_flow_async_unprotect_offline.
+Theorem C01_flow_protect_offline : forall c r1 r2 r3 ns fuel data sid rkid server dom u p a co,
+  value_and_param 8 (run_mut (World_cache.MW c r1 r2 r3 ns no_dns no_dc) fuel k_flow_ncrypt_protect_secret
+                       [VB data; VS sid; World_cache.vbytes_opt rkid; World_cache.vstr_opt server; dom; u; p; a; World_cache.vcache_opt co])
+  = lift2 (protect_offline c (cache_or_new co) r1 r2 r3 data sid rkid ns).
+Proof. exact flow_protect_offline. Qed.
+Print Assumptions C01_flow_protect_offline.
+Theorem C01_flow_async_protect_offline : forall c r1 r2 r3 ns fuel data sid rkid server dom u p a co,
+  value_and_param 8 (run_mut (World_cache.MW c r1 r2 r3 ns no_dns no_dc) fuel k_flow_async_ncrypt_protect_secret
+                       [VB data; VS sid; World_cache.vbytes_opt rkid; World_cache.vstr_opt server; dom; u; p; a; World_cache.vcache_opt co])
+  = lift2 (protect_offline c (cache_or_new co) r1 r2 r3 data sid rkid ns).
+Proof. exact flow_async_protect_offline. Qed.
+Print Assumptions C01_flow_async_protect_offline.
+
+(* C01_roundtrip_offline for the regenerated ASYNC functions: if async_ncrypt_protect_secret(data, sid, root_key_identifier=rkid,
+   cache=cache) returns `blob` (leaving cache1), then cache1 is again cache_ok and async_ncrypt_unprotect_secret(blob, cache=X) returns
+   `data` for every cache_ok X, whatever the other arguments, draws and clock of the second call *)
+Theorem C01_flow_async_roundtrip : forall (c : Crypto) (h : hash) (rk : root_key) (rkid : bytes) (s : sid) (sid : pystr) (time_ns l0 l1 l2 : Z),
+  rk_hash rk = Ok h -> rk_kdf_alg rk = STR_KDF_ALG -> len rkid = 16 ->
+  sid_parse sid = Ok s -> sid_okb sid = true ->
+  0 <= time_ns -> interval_of_time_ns time_ns = (l0, l1, l2) ->
+  kdf_nonempty c -> CryptoLaws c ->
+  forall (cache : ccache) (r1 r2 r3 data blob : bytes) (cache1 : ccache) fuel server dom u p a,
+  cache_ok c h rk rkid (target_sd s) l0 cache -> len r2 = 12 -> len r3 = 32 ->
+  (forall kek w, derived_kek c h rk rkid (target_sd s) l0 l1 l2 r3 = Ok kek -> kw_wrap c kek r1 = Ok w -> len w < U32) ->
+  (forall ct, gcm_enc c r1 r2 data = Ok ct -> len ct < U32) ->
+  value_and_param 8 (run_mut (World_cache.MW c r1 r2 r3 time_ns no_dns no_dc) fuel k_flow_async_ncrypt_protect_secret
+                       [VB data; VS sid; VB rkid; World_cache.vstr_opt server; dom; u; p; a; VO (World_cache.OCache cache)])
+  = Ok (VB blob, VO (World_cache.OCache cache1)) ->
+  cache_ok c h rk rkid (target_sd s) l0 cache1 /\
+  forall X, cache_ok c h rk rkid (target_sd s) l0 X ->
+    forall q1 q2 q3 ns' fuel' server' u' p' a',
+    value_and_param 5 (run_mut (World_cache.MW c q1 q2 q3 ns' no_dns no_dc) fuel' k_flow_async_ncrypt_unprotect_secret
+                         [VB blob; World_cache.vstr_opt server'; u'; p'; a'; VO (World_cache.OCache X)])
+    = Ok (VB data, VO (World_cache.OCache (snd (unprotect_offline c X blob)))).
+Proof. exact flow_roundtrip_async. Qed.
+Print Assumptions C01_flow_async_roundtrip.
+Theorem C01_flow_sync_roundtrip : forall (c : Crypto) (h : hash) (rk : root_key) (rkid : bytes) (s : sid) (sid : pystr) (time_ns l0 l1 l2 : Z),
+  rk_hash rk = Ok h -> rk_kdf_alg rk = STR_KDF_ALG -> len rkid = 16 ->
+  sid_parse sid = Ok s -> sid_okb sid = true ->
+  0 <= time_ns -> interval_of_time_ns time_ns = (l0, l1, l2) ->
+  kdf_nonempty c -> CryptoLaws c ->
+  forall (cache : ccache) (r1 r2 r3 data blob : bytes) (cache1 : ccache) fuel server dom u p a,
+  cache_ok c h rk rkid (target_sd s) l0 cache -> len r2 = 12 -> len r3 = 32 ->
+  (forall kek w, derived_kek c h rk rkid (target_sd s) l0 l1 l2 r3 = Ok kek -> kw_wrap c kek r1 = Ok w -> len w < U32) ->
+  (forall ct, gcm_enc c r1 r2 data = Ok ct -> len ct < U32) ->
+  value_and_param 8 (run_mut (World_cache.MW c r1 r2 r3 time_ns no_dns no_dc) fuel k_flow_ncrypt_protect_secret
+                       [VB data; VS sid; VB rkid; World_cache.vstr_opt server; dom; u; p; a; VO (World_cache.OCache cache)])
+  = Ok (VB blob, VO (World_cache.OCache cache1)) ->
+  cache_ok c h rk rkid (target_sd s) l0 cache1 /\
+  forall X, cache_ok c h rk rkid (target_sd s) l0 X ->
+    forall q1 q2 q3 ns' fuel' server' u' p' a',
+    value_and_param 5 (run_mut (World_cache.MW c q1 q2 q3 ns' no_dns no_dc) fuel' k_flow_ncrypt_unprotect_secret
+                         [VB blob; World_cache.vstr_opt server'; u'; p'; a'; VO (World_cache.OCache X)])
+    = Ok (VB data, VO (World_cache.OCache (snd (unprotect_offline c X blob)))).
+Proof. exact flow_roundtrip_sync. Qed.
+Print Assumptions C01_flow_sync_roundtrip.
